@@ -23,6 +23,8 @@ import (
 	"github.com/apache/skywalking-banyandb/pkg/query/logical"
 	"github.com/apache/skywalking-banyandb/pkg/query/logical/measure"
 	"github.com/apache/skywalking-banyandb/pkg/query/model"
+	vmeasure "github.com/apache/skywalking-banyandb/pkg/query/vectorized/measure"
+	vecplan "github.com/apache/skywalking-banyandb/pkg/query/vectorized/measure/plan"
 	"github.com/apache/skywalking-banyandb/verifkit"
 )
 
@@ -148,6 +150,39 @@ func c10RunLocal(req *measurev1.QueryRequest, ec *c10EC, emitPartial bool) ([]*m
 	return out, nil
 }
 
+// c10RunVec answers the request with the vectorized executor the way banyand/query/processor.go does
+// when the measure vectorized flag is on (vectorized/measure/plan.Dispatch).
+func c10RunVec(req *measurev1.QueryRequest, ec *c10EC, batch int) (out []*measurev1.DataPoint, err error) {
+	defer func() {
+		if r := recover(); r != nil {
+			err = fmt.Errorf("panic: %v", r)
+		}
+	}()
+	md := c10Schema()
+	s, err := measure.BuildSchema(md, nil)
+	if err != nil {
+		return nil, err
+	}
+	cfg := vmeasure.DefaultConfig()
+	cfg.BatchSize = batch
+	it, _, handled, err := vecplan.Dispatch(context.Background(), req, md.Metadata, md, s, ec, cfg, false, false)
+	if err != nil {
+		return nil, err
+	}
+	if !handled {
+		return nil, fmt.Errorf("dispatch declined the request with the flag on")
+	}
+	for it.Next() {
+		for _, idp := range it.Current() {
+			out = append(out, idp.GetDataPoint())
+		}
+	}
+	if cerr := it.Close(); cerr != nil {
+		return nil, fmt.Errorf("iterator: %w", cerr)
+	}
+	return out, nil
+}
+
 type c10Node struct {
 	name string
 	ec   *c10EC
@@ -207,6 +242,11 @@ func c10RunDistributed(req *measurev1.QueryRequest, nodes []c10Node) ([]*measure
 		}
 	}
 	return out, nil
+}
+
+// vecBatch derives a batch size from the case (no extra draw, so committed replays stay valid).
+func (c c10Plan) vecBatch() int {
+	return []int{1, 2, 3, 7, 1024}[(len(c.Rows)+c.Shards+c.TopN)%5]
 }
 
 func (c c10Plan) field() string {
@@ -479,6 +519,18 @@ func TestVerifC10Plans(t *testing.T) {
 				return err
 			}
 			if err := c.checkAgainst(local, ref, "single-place plan"); err != nil {
+				return err
+			}
+			// the vectorized executor over the same rows (batch sizes around the row count)
+			vecDP, err := c10RunVec(proto.Clone(req).(*measurev1.QueryRequest), all, c.vecBatch())
+			if err != nil {
+				return verifkit.Failf("vectorized single-place plan failed: %v", err)
+			}
+			vec, err := c10Render(vecDP, c.GroupBy)
+			if err != nil {
+				return err
+			}
+			if err := c.checkAgainst(vec, ref, "vectorized single-place plan"); err != nil {
 				return err
 			}
 			// partition the series over shards; every shard is one data node, plus replica responders
